@@ -996,7 +996,19 @@ class IMAPClientCommand:
 
         # Reference mailbox name
         #
+        # NOTE: The reference is a prefix for the pattern, not a mailbox: "a/"
+        #       and "a" are different prefixes, but parsing it as a mailbox
+        #       name normalises the trailing hierarchy delimiter away. Remember
+        #       that it was there.
+        #
+        before = self.input
         self.mailbox_name = self._p_mailbox()
+        ref_text = before[: len(before) - len(self.input)].rstrip('"')
+        self.list_ref_trailing_delim: bool = (
+            ref_text.endswith("/")
+            and self.mailbox_name != ""
+            and not self.mailbox_name.endswith("/")
+        )
         self._p_simple_string(" ")
 
         # Mailbox pattern(s): either a single list-mailbox or a
